@@ -98,10 +98,10 @@ func modelQueries(o *Obligation, asserts []*Term) []*Term {
 				seen[t.Args[1].id] = true
 				extra = append(extra, t.Args[1])
 			}
-		case (t.Op == "str.len" || t.Op == "str.at") && len(t.Args) > 0 && len(t.Args[0].Args) == 0 && strings.HasPrefix(t.Args[0].Op, "in."):
+		case (t.Op == "gs.len" || t.Op == "gs.at") && len(t.Args) > 0 && len(t.Args[0].Args) == 0 && strings.HasPrefix(t.Args[0].Op, "in."):
 			seen[t.id] = true
 			extra = append(extra, t)
-			if t.Op == "str.at" && !t.Args[1].IsConst() && !seen[t.Args[1].id] {
+			if t.Op == "gs.at" && !t.Args[1].IsConst() && !seen[t.Args[1].id] {
 				seen[t.Args[1].id] = true
 				extra = append(extra, t.Args[1])
 			}
